@@ -107,7 +107,10 @@ def lmethod_bounds(x, y, fit, cost):
             return a * lr + b_ * rr
         lo = err(rl - dl, rR - dr)
         hi = err(rl + dl, rR + dr)
-        out[i] = (lo * (1 - 1e-9) - 1e-300, hi * (1 + 1e-9) + 1e-300)
+        # np.polyfit obtains the residual from an SVD least-squares solve: its relative accuracy is
+        # cond(V)*eps, not a few ulp (observed 1.6e-9 at y ~ 1e15) -> wider allowance for best_fit
+        rel = 1e-9 if fit == 'point_fit' else 1e-6
+        out[i] = (lo * (1 - rel) - 1e-300, hi * (1 + rel) + 1e-300)
     return out
 
 
@@ -299,5 +302,67 @@ def examples(tier):
              'ref': 'original', 'limit': lim} for f in FITS for lim in (4, 5, 10)]
 
 
+@st.composite
+def lmethod_long_cases(draw, tier):
+    n = draw(st.integers(105, 400 if tier == 'quick' else 1200))
+    kind = draw(st.sampled_from(['cliff', 'cliff', 'hyperbola', 'noisy', 'two-knees']))
+    x = [float(i) for i in range(n)]
+    if kind == 'cliff':       # plateau, sharp drop, flat tail: the error profile has an early local minimum
+        p1 = draw(st.integers(20, max(21, n - 30)))
+        w = draw(st.integers(1, 8))
+        hi, lo = draw(st.sampled_from([(100.0, 1.0), (10.0, 0.0), (1.0, 0.5)]))
+        y = [hi - 0.001 * i if i < p1 else (max(lo, hi - (hi - lo) * (i - p1) / w)) - 0.0005 * i * (lo > 0) for i in range(n)]
+        y = [max(v, 0.0) for v in y]
+    elif kind == 'hyperbola':
+        a = draw(st.sampled_from([2.0, 15.0, 80.0]))
+        y = [a / (i + a) for i in range(n)]
+    elif kind == 'two-knees':
+        k1 = draw(st.integers(5, n // 3)); k2 = draw(st.integers(n // 2, n - 10))
+        y = [30.0 - 15.0 * i / k1 if i < k1 else (15.0 - 10.0 * (i - k1) / (k2 - k1) if i < k2 else 5.0 - 4.0 * (i - k2) / (n - k2)) for i in range(n)]
+    else:
+        vals = draw(st.lists(st.integers(0, 50), min_size=n, max_size=n))
+        y = [float(v) for v in sorted(vals, reverse=True)]
+    return {'family': 'lmethod-long:' + kind, 'pts': [[a, b] for a, b in zip(x, y)],
+            'fit': draw(st.sampled_from(FITS)), 'cost': draw(st.sampled_from(COSTS))}
+
+
+def oracle_lmethod_long(case, rec):
+    """get_knee must return the first minimiser of the library's own compute_error over ALL splits
+    2..n-3 (exact comparison; compute_error itself is validated on short curves by `detectors`)."""
+    L = lib.lib()
+    lm = L.lmethod
+    p = lib.pts_of(case)
+    n = len(p)
+    x, y = p[:, 0].copy(), p[:, 1].copy()
+    Fit, Cost = getattr(lm.Fit, case['fit']), getattr(lm.Cost, case['cost'])
+    rec.tag(case['family'], 'lmethod-long:%s/%s' % (case['fit'], case['cost']))
+    out = rec.call(8, lm.get_knee, x, y, Fit, Cost, _site='lmethod.get_knee')
+    if out is FAILED or not rec.check(isinstance(out, tuple) and len(out) == 3, 'lmethod.get_knee:shape', repr(out)[:80]):
+        return
+    try:
+        k = int(out[0])
+    except (TypeError, ValueError):
+        rec.fail('lmethod.get_knee:not-an-interior-index', repr(out[0]))
+        return
+    if not rec.check(2 <= k <= n - 3, 'lmethod.get_knee:not-an-interior-index', (k, n)):
+        return
+    length = x[-1] - x[0]
+    errs = []
+    for i in range(2, n - 2):
+        e = rec.call(8, lm.compute_error, x, y, i, length, Fit, Cost, _site='lmethod.compute_error')
+        if e is FAILED:
+            return
+        errs.append(float(e[0]))
+    if any(v != v for v in errs):
+        rec.tag('lmethod-long:nan-error-skipped')
+        return
+    mn = min(errs)
+    first = 2 + errs.index(mn)
+    rec.check(k == first, 'lmethod.get_knee:not-the-first-minimum-of-compute_error',
+              'returned %d (error %r) but split %d has error %r; n=%d fit=%s cost=%s' % (k, errs[k - 2], first, mn, n, case['fit'], case['cost']))
+    rec.nontrivial = sorted(errs)[1] > mn
+
+
 SUBS = [Sub('detectors', oracle, strategy=cases, budget={'quick': 6400, 'thorough': 64000}, examples=examples),
+        Sub('lmethod_long', oracle_lmethod_long, strategy=lmethod_long_cases, budget={'quick': 480, 'thorough': 4800}),
         Sub('refine', oracle_refine, strategy=refine_cases, budget={'quick': 48000, 'thorough': 640000})]
